@@ -33,25 +33,6 @@ var hashT = types.NewPointer(types.NewNamed(types.NewTypeName(0, nil, "md5Model"
 var coderT = types.NewPointer(types.NewNamed(types.NewTypeName(0, nil, "coderModel", nil), types.NewStruct(nil, nil), nil))
 
 func (ex *Exec) digestOf(content []*Term) []*Term {
-	allConst := true
-	for _, b := range content {
-		if !b.IsConst() {
-			allConst = false
-			break
-		}
-	}
-	if allConst {
-		raw := make([]byte, len(content))
-		for i, b := range content {
-			raw[i] = byte(b.val)
-		}
-		sum := md5.Sum(raw)
-		out := make([]*Term, 16)
-		for i := range out {
-			out[i] = ex.ts.Const(8, uint64(sum[i]))
-		}
-		return out
-	}
 	recs, _ := ex.side["digests"].([]*digestRec)
 	for _, r := range recs {
 		if len(r.content) == len(content) {
@@ -68,9 +49,22 @@ func (ex *Exec) digestOf(content []*Term) []*Term {
 		}
 	}
 	d := make([]*Term, 16)
-	for i := range d {
-		d[i] = ex.nondet(8)
+	if allConst(content) {
+		raw := make([]byte, len(content))
+		for i, b := range content {
+			raw[i] = byte(b.val)
+		}
+		sum := md5.Sum(raw)
+		for i := range d {
+			d[i] = ex.ts.Const(8, uint64(sum[i]))
+		}
+	} else {
+		for i := range d {
+			d[i] = ex.nondet(8)
+		}
+		ex.stubsUsed["md5: digest(a)=digest(b) <=> a=b (assumed)"]++
 	}
+	// collision-freedom against every digest seen so far, concrete ones included
 	for _, r := range recs {
 		deq := ex.termsEq(d, r.digest)
 		ceq := ex.termsEq(content, r.content)
@@ -78,7 +72,6 @@ func (ex *Exec) digestOf(content []*Term) []*Term {
 	}
 	recs = append(recs, &digestRec{content, d})
 	ex.side["digests"] = recs
-	ex.stubsUsed["md5: digest(a)=digest(b) <=> a=b (assumed)"]++
 	return d
 }
 
